@@ -1,0 +1,48 @@
+//go:build verif
+
+package minter
+
+import (
+	"math/big"
+
+	"github.com/MinterTeam/minter-go-node/coreV2/appdb"
+	eventsdb "github.com/MinterTeam/minter-go-node/coreV2/events"
+	"github.com/MinterTeam/minter-go-node/coreV2/state"
+	"github.com/MinterTeam/minter-go-node/coreV2/types"
+)
+
+// Accessors used only by the verification harness (build tag verif). Add-only file.
+
+func (blockchain *Blockchain) VerifAppDB() *appdb.AppDB { return blockchain.appDB }
+
+func (blockchain *Blockchain) VerifStateDeliver() *state.State { return blockchain.stateDeliver }
+
+func (blockchain *Blockchain) VerifEventsDB() eventsdb.IEventsDB { return blockchain.eventsDB }
+
+// VerifSetPowers replaces the voting powers computed by calculatePowers.
+func (blockchain *Blockchain) VerifSetPowers(powers map[types.Pubkey]*big.Int, total *big.Int) {
+	blockchain.validatorsPowers = powers
+	blockchain.totalPower = total
+}
+
+func (blockchain *Blockchain) VerifPowers() (map[types.Pubkey]*big.Int, *big.Int) {
+	return blockchain.validatorsPowers, blockchain.totalPower
+}
+
+// VerifIsApplicationHalted exposes the halt decision (a real halt exits the process).
+func (blockchain *Blockchain) VerifIsApplicationHalted(height uint64) bool {
+	return blockchain.isApplicationHalted(height)
+}
+
+func (blockchain *Blockchain) VerifUpdateCommissionsBlock(height uint64) []byte {
+	return blockchain.isUpdateCommissionsBlockV2(height)
+}
+
+func (blockchain *Blockchain) VerifUpdateNetworkBlock(height uint64) (string, bool) {
+	return blockchain.isUpdateNetworkBlockV2(height)
+}
+
+// VerifWaitSnapshot waits for the background snapshot goroutine.
+func (blockchain *Blockchain) VerifWaitSnapshot() { blockchain.wgSnapshot.Wait() }
+
+func (blockchain *Blockchain) VerifRewardsPool() *big.Int { return blockchain.rewards }
